@@ -13,15 +13,31 @@ def occurrences(P):
     return occ
 
 
-def check_doc(part, sess, P, text, T, rng, max_ids):
+def check_doc(part, sess, P, text, T, rng, max_ids, open_ids=frozenset()):
     uri = sess.open(text, "c13_")
     occ = occurrences(P)
     ids = feat.idents(P)
+    pm = feat.proc_of_tokens(P)
     sample = ids if len(ids) <= max_ids else rng.sample(ids, max_ids)
     renamed = 0
     for tk in sample:
         b = tk.bind; key = feat.bkey(b)
         group = occ[key]
+        loc = feat.shadowing_local(P, tk, pm)
+        if loc is not None and "K-C13-1" in open_ids:
+            # known class K-C13-1: a type-position identifier that is also the name of a local of the enclosing procedure is answered for
+            # the local: references/rename return the local's occurrences. Checked as such (any other answer is a violation).
+            l, c = rng.choice(feat.columns(rng, T, tk))
+            p_ = tdp(uri, l, c); p_["context"] = {"includeDeclaration": True}
+            res = sess.result("textDocument/references", p_); part.ev()
+            got = sorted(feat.rkey(x["range"]) for x in res) if isinstance(res, list) else res
+            want_true = sorted(feat.rkey(feat.rng_of(T, t)) for t in group if t is not tk)
+            want_known = sorted(feat.rkey(feat.rng_of(T, t)) for t in occ[feat.bkey(loc)])
+            if got == want_true: part.see(("references", "type", "shadowed-use"))
+            elif got == want_known: part.known("K-C13-1", "known class"); part.add("known_classes_seen", "K-C13-1/references")
+            else: part.fail("references on the type-position identifier %r (hidden by a local) at %d:%d returns %r; neither the type's occurrences %r nor the known wrong answer %r" % (tk.text, l, c, got, want_true, want_known),
+                            {"kind": "references", "text": text, "line": l, "character": c, "expected": want_true})
+            continue
         l, c = rng.choice(feat.columns(rng, T, tk))
         kind = b.kind if isinstance(b, gen.Decl) else "predefined"
         cls = (kind, tk.role, min(len(group), 4))
@@ -95,13 +111,13 @@ def check_doc(part, sess, P, text, T, rng, max_ids):
 
 
 def worker(args):
-    seed, nprog, max_ids = args
+    seed, nprog, max_ids, open_ids = args
     rng = random.Random("C13/%s" % seed)
     part = Part(); sess = feat.Session()
     for it in range(nprog):
         P, text, T = feat.program(rng, edepth=rng.choice([2, 3]))
         try:
-            check_doc(part, sess, P, text, T, rng, max_ids)
+            check_doc(part, sess, P, text, T, rng, max_ids, open_ids)
             if it == 0: part.sample({"part": "references/rename", "text": text[:300]}, 1)
         except (ServerDied, Timeout, FrameError) as e:
             feat.died(part, e, "references/rename request", {"kind": "doc", "text": text}, sess)
@@ -112,13 +128,33 @@ def worker(args):
 def run(ctx):
     server_bin("rel")
     nprog, mi = (40, 25) if ctx.quick else (1200, 60)
-    for p in pmap(worker, [("%s/%d" % (ctx.seed, i), nprog, mi) for i in range(NCPU)]): ctx.merge(p)
+    open_ids = frozenset(f["id"] for f in ctx.open_findings())
+    replay_witnesses(ctx)
+    for p in pmap(worker, [("%s/%d" % (ctx.seed, i), nprog, mi, open_ids) for i in range(NCPU)]): ctx.merge(p)
     ctx.rule = ("well-typed generated programs with variables used inside parentheses, after unary minus, inside index expressions, as arguments, in conditions and as assignment targets, "
                 "identifiers preceded by comments, equal names in several procedures; every sampled identifier: references, prepareRename, rename; for declared entities rename -> apply -> "
                 "re-open (no diagnostics) -> references on the new name -> rename back = original text; distinct_nontrivial = distinct (request, binding kind, role, group size) classes")
     ctx.assumptions = ["occurrence sets come from the generator's bindings", "`main` and predefined entities are exempt from the apply/round-trip part (renaming them is a semantic change)"]
     ctx.floor("evaluations", ctx.evaluations, 4000)
     ctx.floor("rename round trips", ctx.extra.get("counters", {}).get("rename_round_trips", 0), 200)
+
+
+def replay_witnesses(ctx):
+    import json, os
+    from ..core import VERIF
+    sess = feat.Session()
+    for f in ctx.open_findings():
+        w = json.load(open(os.path.join(VERIF, f["witness"])))["scenario"]
+        try:
+            uri = sess.open(w["text"], "c13w_")
+            p = tdp(uri, w["line"], w["character"]); p["context"] = {"includeDeclaration": True}
+            res = sess.result("textDocument/references", p); ctx.count(); sess.close(uri)
+            got = sorted(feat.rkey(x["range"]) for x in res) if isinstance(res, list) else res
+            if got != [tuple(x) for x in w["expected"]]: ctx.known(f["id"], f["what"])
+            else: ctx.extra.setdefault("witnesses_no_longer_failing", []).append(f["id"])
+        except (ServerDied, Timeout, FrameError):
+            ctx.known(f["id"], f["what"]); sess.kill()
+    sess.kill()
 
 
 def replay(ctx, sc):
